@@ -166,6 +166,91 @@ def extract_allowed_scores(src: str):
     raise ValueError('ALLOWED_SCORES not found')
 
 
+def _names(e):
+    return {n.id for n in ast.walk(e) if isinstance(n, ast.Name)}
+
+
+def _subscript_of(e, base_attr):
+    """`self.<base_attr>[<Name>]` -> the index name"""
+    if isinstance(e, ast.Subscript) and isinstance(e.value, ast.Attribute) and e.value.attr == base_attr \
+            and isinstance(e.slice, ast.Name):
+        return e.slice.id
+    return None
+
+
+def extract_scoring_facts(nbl_src: str, dp_src: str):
+    """Semantic facts of `NBlaster.single_query_target` / `calc_self_hit` and `Dotprops.dist_dots` the model relies on."""
+    f = {}
+    tree = ast.parse(nbl_src)
+    cls = find_class(tree, 'NBlaster')
+    sqt = find_method(cls, 'single_query_target')
+    params = [a.arg for a in sqt.args.args]
+    qn, tn = params[1], params[2]
+    # (a) the self-self short-cut is keyed on the two POSITIONS
+    first_if = next((n for n in sqt.body if isinstance(n, ast.If)), None)
+    t = first_if.test if first_if is not None else None
+    f['shortcut_on_positions'] = bool(
+        isinstance(t, ast.Compare) and len(t.ops) == 1 and isinstance(t.ops[0], ast.Eq) and
+        isinstance(t.left, ast.Name) and isinstance(t.comparators[0], ast.Name) and
+        {t.left.id, t.comparators[0].id} == {qn, tn})
+    # (b) normalisation divides by the QUERY's self hit
+    norm_by = None
+    for n in ast.walk(sqt):
+        if isinstance(n, ast.AugAssign) and isinstance(n.op, ast.Div):
+            norm_by = _subscript_of(n.value, 'self_hits') or norm_by
+        if isinstance(n, ast.BinOp) and isinstance(n.op, ast.Div) and _subscript_of(n.right, 'self_hits'):
+            norm_by = _subscript_of(n.right, 'self_hits')
+    f['normalises_by_query'] = norm_by == qn
+    # (c) the reverse score is the same function with the two indices swapped, in forward mode
+    rev_ok = False
+    for n in ast.walk(sqt):
+        if isinstance(n, ast.Call) and isinstance(n.func, ast.Attribute) and n.func.attr == 'single_query_target':
+            a = [x.id if isinstance(x, ast.Name) else None for x in n.args[:2]]
+            sc = [kw.value.value for kw in n.keywords if kw.arg == 'scores' and isinstance(kw.value, ast.Constant)]
+            sc += [x.value for x in n.args[2:3] if isinstance(x, ast.Constant)]
+            rev_ok = a == [tn, qn] and sc == ['forward']
+    f['reverse_swaps_indices'] = rev_ok
+    # (d) the dot products are scaled by sqrt(alpha) (and by nothing else) when alpha is used
+    sc_ok = False
+    for n in ast.walk(sqt):
+        if isinstance(n, ast.AugAssign) and isinstance(n.op, ast.Mult) and isinstance(n.target, ast.Name) \
+                and isinstance(n.value, ast.Call) and isinstance(n.value.func, ast.Attribute) and n.value.func.attr == 'sqrt' \
+                and len(n.value.args) == 1 and isinstance(n.value.args[0], ast.Name):
+            sc_ok = True
+    f['dots_scaled_by_sqrt_alpha'] = sc_ok
+    # (e) Dotprops.dist_dots: points without a neighbour inside the cap get distance = cap and dot product 0 on EVERY
+    #     path that returns the dot products (with and without alpha), alpha product 0 where it is returned
+    dcls = find_class(ast.parse(dp_src), 'Dotprops')
+    dd = find_method(dcls, 'dist_dots')
+    zero_lines = {}     # variable -> (line of `var[mask] = value`, value)
+    for n in ast.walk(dd):
+        if isinstance(n, ast.Assign) and len(n.targets) == 1 and isinstance(n.targets[0], ast.Subscript) \
+                and isinstance(n.targets[0].value, ast.Name) and isinstance(n.targets[0].slice, ast.Name):
+            var = n.targets[0].value.id
+            val = n.value.value if isinstance(n.value, ast.Constant) else (n.value.id if isinstance(n.value, ast.Name) else '?')
+            zero_lines.setdefault(var, []).append((n.lineno, val))
+    rets = [n for n in ast.walk(dd) if isinstance(n, ast.Return) and n.value is not None]
+    bound_name = next((a.arg for a in dd.args.args if 'bound' in a.arg), 'distance_upper_bound')
+
+    def fixed_before_every_return(pos, want):
+        """the `pos`-th returned variable has been assigned `want` under a mask before every return that carries it"""
+        ok, seen = True, False
+        for rt_ in rets:
+            elts = rt_.value.elts if isinstance(rt_.value, ast.Tuple) else [rt_.value]
+            if len(elts) <= pos or not isinstance(elts[pos], ast.Name):
+                continue
+            seen = True
+            v = elts[pos].id
+            if not any(ln < rt_.lineno and val == want for (ln, val) in zero_lines.get(v, [])):
+                ok = False
+        return ok and seen
+
+    f['nohit_dist_is_bound'] = fixed_before_every_return(0, bound_name)
+    f['nohit_dot_zero_on_all_paths'] = fixed_before_every_return(1, 0)
+    f['nohit_alpha_zero'] = fixed_before_every_return(2, 0)
+    return f
+
+
 def generate(repo: Path):
     repo = Path(repo)
     nbl = repo / 'navis' / 'nbl'
@@ -173,6 +258,7 @@ def generate(repo: Path):
     t2 = read_table(nbl / 'score_mats' / 'smat_alpha_fcwb.csv')
     side_lean, side_txt, off, clip = extract_digitizer((nbl / 'smat.py').read_text())
     allowed = extract_allowed_scores((nbl / 'nblast_funcs.py').read_text())
+    sf = extract_scoring_facts((nbl / 'nblast_funcs.py').read_text(), (repo / 'navis' / 'core' / 'dotprop.py').read_text())
     b = lambda x: 'true' if x else 'false'
     out = []
     out.append('import NavisModel.Model.Nblast')
@@ -190,6 +276,12 @@ def generate(repo: Path):
     out.append(f'def defaultClip : Bool × Bool := ({b(clip[0])}, {b(clip[1])})\n')
     out.append('/-- `ALLOWED_SCORES` -/')
     out.append('def allowedScores : List String := [' + ', '.join(f'"{s}"' for s in allowed) + ']\n')
+    out.append('/-- semantic facts of `NBlaster.single_query_target` and `Dotprops.dist_dots` (see translator/gen_smat.py) -/')
+    for k in ('shortcut_on_positions', 'normalises_by_query', 'reverse_swaps_indices', 'dots_scaled_by_sqrt_alpha',
+              'nohit_dist_is_bound', 'nohit_dot_zero_on_all_paths', 'nohit_alpha_zero'):
+        camel = ''.join(w.capitalize() if i else w for i, w in enumerate(k.split('_')))
+        out.append(f'def {camel} : Bool := {b(sf[k])}')
+    out.append('')
     out.append(lean_intervals('fcwbRows', t1[0]))
     out.append(lean_intervals('fcwbCols', t1[1]))
     out.append(lean_cells('fcwbCells', t1[2]))
@@ -201,10 +293,11 @@ def generate(repo: Path):
     out.append('def fcwbAlpha : Option Lookup2d := Lookup2d.fromDataframe fcwbAlphaRows fcwbAlphaCols fcwbAlphaCells\n')
     out.append('end Navis.Gen.Smat\n')
     meta = {
-        'source': ['navis/nbl/smat.py', 'navis/nbl/nblast_funcs.py', 'navis/nbl/score_mats/smat_fcwb.csv',
+        'source': ['navis/nbl/smat.py', 'navis/nbl/nblast_funcs.py', 'navis/core/dotprop.py', 'navis/nbl/score_mats/smat_fcwb.csv',
                    'navis/nbl/score_mats/smat_alpha_fcwb.csv'],
         'side_expression': side_txt, 'offset': off, 'default_clip': list(clip), 'allowed_scores': allowed,
         'fcwb_shape': [len(t1[0]), len(t1[1])], 'fcwb_alpha_shape': [len(t2[0]), len(t2[1])],
         'fcwb_right_closed': [all(r for _, _, r in t1[0]), all(r for _, _, r in t1[1])],
+        'scoring_facts': sf,
     }
     return 'Smat.lean', '\n'.join(out), meta
